@@ -26,6 +26,9 @@ BAD_SCHEMAS = {
     "mixed_type_enum": {"enum": [1, "a"]},
     "bool_enum": {"enum": [True, False]},
     "bad_union_member": {"oneOf": [{"type": "string"}, {"type": "array"}]},
+    "enum_with_array_member": {"enum": ["a", ["b", "c"]]},
+    "enum_with_object_member": {"type": "string", "enum": [{"k": 1}, "a"]},
+    "enum_of_floats": {"enum": [1.5, 2.5]},
 }
 
 
